@@ -114,7 +114,17 @@ def run(ctx):
         hv = strip_all_casts(hv["args"][0])
     hd, _ = depends(ctor, smh[0]["args"][1])
     plus = any(x.get("k") == "bin" and x.get("op") in ("+", "-") for x in facts.walk(smh[0]["args"][1]))
-    res.check(datap in hd and not plus, "C04-R1", "Packet():header-view", smh[0].get("loc"), "message header viewed at offset 0 of the message", "message header is not read at the start of the message")
+    at0 = datap in hd and not plus
+    if not at0 and hv.get("k") == "ref" and hv.get("dk") == "local" and (hv.get("t") or {}).get("rec") == MH:
+        # a local MessageHeader filled by one raw copy of sizeof(MessageHeader) bytes from offset 0 of the message
+        from rules.c02 import prov
+        cps = [facts.copy_args(x) for x in ctor.calls() if facts.copy_args(x)]
+        cps = [ca for ca in cps if strip_all_casts(ca[0]).get("k") == "un" and strip_all_casts(strip_all_casts(ca[0])["e"]).get("decl") == hv["decl"]]
+        if len(cps) == 1:
+            ps = prov(ctor, cps[0][1])
+            at0 = ps.kind == "param" and ps.base == datap and ps.off == 0 and const_value(cps[0][2]) == fb.record(MH)["size"] and \
+                not any(d == hv["decl"] and kind != "addr" for d, kind, _ in facts.writes_of(ctor))
+    res.check(at0, "C04-R1", "Packet():header-view", smh[0].get("loc"), "message header taken from offset 0 of the message", "message header is not read at the start of the message")
     # setMessageHeader rows
     f = fb.fn(PKT + "::setMessageHeader")
     en = {e["name"]: e["value"] for e in fb.enum(CH + "::MessageType")["enumerators"]}
